@@ -1,1 +1,490 @@
-pub fn selftest() -> Vec<String> { vec![] }
+//! Reference model of the STUN agent, written from the statements of C05 C06 C07 C15 C18 and
+//! RFC 8489 §6.2.1 — not from the code.  Observation-driven: the model is told what the real
+//! agent answered, checks that the answer is one the statements allow, and advances itself from
+//! the observation (so it never has to guess a map-iteration order).  Each violated clause is
+//! attributed to exactly one property (DESIGN.md Appendix A).
+
+use super::*;
+use crate::refimpl::wire;
+use std::collections::{BTreeMap, BTreeSet};
+
+#[derive(Clone, Debug, PartialEq, Eq, Hash)]
+pub struct Tx {
+    pub to: u8,
+    pub sealed: bool,
+    pub wire: std::sync::Arc<Vec<u8>>,
+    /// transmissions handed out so far (1 after `send`)
+    pub n_tx: u32,
+    pub last_tx: i64,
+    pub rto: u64,
+    pub retransmits: u32,
+    pub last: u64,
+    /// cancel_retransmissions() or cancel() was called
+    pub stop_tx: bool,
+    /// cancel() was called
+    pub cancelled: bool,
+}
+
+#[derive(Clone, Copy, Debug, PartialEq, Eq)]
+pub enum Due {
+    Retransmit(i64),
+    Timeout(i64),
+}
+
+impl Tx {
+    /// next scheduled event of this transaction per the statement of C06
+    pub fn next(&self, tcp: bool) -> Due {
+        if tcp {
+            let mut sum = self.last as i64;
+            for i in 0..self.retransmits {
+                sum += (self.rto as i64) << i;
+            }
+            return Due::Timeout(self.last_tx + sum);
+        }
+        let done = self.n_tx - 1; // retransmissions made so far
+        if done < self.retransmits {
+            Due::Retransmit(self.last_tx + ((self.rto as i64) << done))
+        } else {
+            Due::Timeout(self.last_tx + self.last as i64)
+        }
+    }
+    pub fn next_time(&self, tcp: bool) -> i64 {
+        match self.next(tcp) {
+            Due::Retransmit(t) | Due::Timeout(t) => t,
+        }
+    }
+    /// strict = the statements pin when it is serviced (no cancel flag)
+    pub fn strict(&self) -> bool {
+        !self.stop_tx && !self.cancelled
+    }
+}
+
+#[derive(Clone, Debug, PartialEq, Eq, Hash)]
+pub struct Spec {
+    pub tcp: bool,
+    pub now: i64,
+    pub remote_key: Option<u8>,
+    pub validated: BTreeSet<u8>,
+    pub live: BTreeMap<u8, Tx>,
+    /// per id: how many sends completed, and how (1 delivered, 2 timed out, 3 cancelled)
+    pub completed: BTreeMap<u8, Vec<u8>>,
+    pub sends: u8,
+    /// the last poll answered WaitUntil(t) with something live and nothing that may move the
+    /// schedule has happened since (black-box WaitUntil contract)
+    pub pending_wait: Option<i64>,
+    pub diverged: bool,
+}
+
+/// A violated clause: (property, clause, what, expected, observed)
+#[derive(Clone, Debug)]
+pub struct Breach {
+    pub property: &'static str,
+    pub clause: String,
+    pub what: String,
+    pub expected: String,
+    pub observed: String,
+}
+
+fn breach(property: &'static str, clause: &str, what: &str, expected: String, observed: String) -> Breach {
+    Breach { property, clause: clause.to_string(), what: what.to_string(), expected, observed }
+}
+
+pub fn cfg_of(i: u8) -> (u64, u32, u64) {
+    super::cfg(i)
+}
+
+pub fn id_of_tid(t: u128) -> Option<u8> {
+    (0..N_IDS as u8).find(|i| tid(*i) == t)
+}
+
+impl Spec {
+    pub fn new(tcp: bool) -> Spec {
+        Spec { tcp, now: 0, remote_key: None, validated: BTreeSet::new(), live: BTreeMap::new(), completed: BTreeMap::new(), sends: 0, pending_wait: None, diverged: false }
+    }
+
+    /// earliest scheduled event over live transactions whose timing the statements pin
+    pub fn min_next_strict(&self) -> Option<i64> {
+        self.live.values().filter(|t| t.strict()).map(|t| t.next_time(self.tcp)).min()
+    }
+    pub fn min_next_all(&self) -> Option<i64> {
+        self.live.values().map(|t| t.next_time(self.tcp)).min()
+    }
+    /// the wake-up the poll timing alphabet is relative to
+    pub fn wake(&self) -> Option<i64> {
+        self.pending_wait.or(self.min_next_all())
+    }
+
+    /// time at which `act` executes (None = not enabled at this state)
+    pub fn resolve_time(&self, act: &Act) -> Option<i64> {
+        match act {
+            Act::Poll { when, .. } => {
+                let t = match when {
+                    When::Now => self.now,
+                    _ => {
+                        let w = self.wake()?;
+                        match when {
+                            When::WakeMinus1 => w - 1,
+                            When::Wake => w,
+                            When::WakePlus1 => w + 1,
+                            When::WakePlus700 => w + 700,
+                            When::Far => w + FAR_MS,
+                            When::Now => unreachable!(),
+                        }
+                    }
+                };
+                if t < self.now || (*when != When::Now && t == self.now && *when == When::WakeMinus1) {
+                    // time never runs backwards; "wake-1" is only interesting strictly ahead
+                    if t < self.now {
+                        return None;
+                    }
+                }
+                Some(t)
+            }
+            Act::Tick { ms } => Some(self.now + *ms as i64),
+            _ => Some(self.now),
+        }
+    }
+
+    /// canonical, time-shift-invariant rendering for the deduplication key
+    pub fn canonical(&self) -> String {
+        let mut s = format!("{}|{:?}|{:?}|", self.tcp, self.remote_key, self.validated);
+        for (id, t) in &self.live {
+            s.push_str(&format!("{id}:{}:{}:{}:{}:{}:{}:{}:{}:{}:{}:{};", t.to, t.sealed, t.wire.len(), t.n_tx, t.last_tx - self.now, t.rto, t.retransmits, t.last, t.stop_tx, t.cancelled, wire::be16(&t.wire[2..4])));
+        }
+        s.push_str(&format!("|{:?}|{}|{:?}|{}", self.completed.keys().collect::<Vec<_>>(), self.sends, self.pending_wait.map(|w| w - self.now), self.diverged));
+        s
+    }
+
+    fn complete(&mut self, id: u8, how: u8) {
+        self.live.remove(&id);
+        self.completed.entry(id).or_default().push(how);
+    }
+
+    /// Check the observation of one step against the statements and advance.
+    pub fn apply(&mut self, step: &Step, obs: &Obs, post: &Post) -> Vec<Breach> {
+        let mut out = Vec::new();
+        debug_assert!(step.now >= self.now);
+        self.now = step.now;
+        let tcp = self.tcp;
+        match (&step.act, obs) {
+            (_, Obs::Unparsable(e)) => out.push(breach("C02", "harness-message-unparsable", "the library does not parse a reference-serialised message of the agent alphabet", "Ok".into(), e.clone())),
+            (Act::Send { id, dest, seal, shape }, o) => {
+                let w = request_wire(*id, *seal, *shape);
+                match o {
+                    Obs::Sent { data, from, to, tcp: t } => {
+                        if self.live.contains_key(id) {
+                            out.push(breach("C05", "duplicate-send-accepted", "sending a request whose id is already outstanding was not refused", "Err".into(), "Ok(Transmit)".into()));
+                        }
+                        if *data != w {
+                            out.push(breach("C18", "initial-bytes", "the initial transmission is not the serialisation of the message handed to send", crate::common::fmt_bytes(&w), crate::common::fmt_bytes(data)));
+                        }
+                        if *from != local_addr() || *to != peer(*dest) || *t != tcp {
+                            out.push(breach("C18", "initial-addressing", "the initial transmission is not addressed local -> destination over the agent's transport", format!("{} -> {} tcp={tcp}", local_addr(), peer(*dest)), format!("{from} -> {to} tcp={t}")));
+                        }
+                        self.live.insert(*id, Tx { to: *dest, sealed: *seal != Seal::None, wire: std::sync::Arc::new(w), n_tx: 1, last_tx: self.now, rto: 500, retransmits: 6, last: 8000, stop_tx: false, cancelled: false });
+                        self.sends += 1;
+                        self.pending_wait = None;
+                    }
+                    Obs::SendRefused(e) => {
+                        if !self.live.contains_key(id) {
+                            out.push(breach("C05", "send-refused", "sending a request whose id is not outstanding was refused", "Ok(Transmit)".into(), e.clone()));
+                        }
+                        // refusal must leave the existing transaction untouched: observers below + futures
+                    }
+                    other => out.push(breach("C05", "send-shape", "send returned something unexpected", "Transmit or error".into(), format!("{other:?}"))),
+                }
+            }
+            (Act::SendOther { kind, dest }, o) => {
+                let w = other_wire(*kind);
+                match o {
+                    Obs::Sent { data, from, to, tcp: t } => {
+                        if *data != w {
+                            out.push(breach("C18", "other-bytes", "an indication/response was not transmitted unmodified", crate::common::fmt_bytes(&w), crate::common::fmt_bytes(data)));
+                        }
+                        if *from != local_addr() || *to != peer(*dest) || *t != tcp {
+                            out.push(breach("C18", "other-addressing", "an indication/response is not addressed as asked", format!("{} -> {}", local_addr(), peer(*dest)), format!("{from} -> {to}")));
+                        }
+                    }
+                    other => out.push(breach("C18", "other-refused", "sending an indication/response failed", "Ok(Transmit)".into(), format!("{other:?}"))),
+                }
+                // leaves no transaction behind: observers below (live set unchanged) + futures
+            }
+            (Act::Poll { .. }, o) => {
+                // black-box WaitUntil contract first
+                if let Some(t) = self.pending_wait {
+                    if self.now < t {
+                        match o {
+                            Obs::PollWait(ns) if *ns == t as i128 * 1_000_000 => {}
+                            other => out.push(breach("C06", "contract-early-poll", "polling before the announced WaitUntil instant did not answer the same instant without an event", format!("WaitUntil(+{t}ms)"), format!("{other:?}"))),
+                        }
+                    } else if self.now == t {
+                        if let Obs::PollWait(ns) = o {
+                            out.push(breach("C06", "contract-no-event-at-t", "polling exactly at the announced WaitUntil instant produced no event", "an event".into(), format!("WaitUntil(+{}ns)", ns)));
+                        }
+                    }
+                }
+                match o {
+                    Obs::PollSend { data, from, to, tcp: t } => {
+                        let who = self.live.iter().find(|(_, x)| *x.wire == *data).map(|(i, _)| *i);
+                        match who {
+                            None => {
+                                let completed_match = (0..3u8).any(|i| self.completed.contains_key(&i) && !self.live.contains_key(&i));
+                                if completed_match {
+                                    out.push(breach("C05", "transmission-after-completion", "poll produced a transmission that belongs to no outstanding transaction", "no transmission for completed transactions".into(), crate::common::fmt_bytes(data)));
+                                } else {
+                                    out.push(breach("C18", "retransmission-bytes", "a retransmission does not carry the bytes of any outstanding request", "bytes of an outstanding request".into(), crate::common::fmt_bytes(data)));
+                                }
+                            }
+                            Some(id) => {
+                                let x = self.live.get(&id).unwrap().clone();
+                                if *from != local_addr() || *to != peer(x.to) || *t != tcp {
+                                    out.push(breach("C18", "retransmission-addressing", "a retransmission is not addressed local -> destination over the agent's transport", format!("{} -> {} tcp={tcp}", local_addr(), peer(x.to)), format!("{from} -> {to} tcp={t}")));
+                                }
+                                if x.stop_tx {
+                                    out.push(breach("C06", "transmit-after-cancel", "a transmission was produced after cancel_retransmissions()/cancel()", "no further transmission".into(), format!("retransmission #{} of id {id}", x.n_tx)));
+                                } else {
+                                    match x.next(tcp) {
+                                        Due::Retransmit(at) if at <= self.now => {}
+                                        Due::Retransmit(at) => out.push(breach("C06", "retransmit-early", "a retransmission was handed out before it was due", format!("due at +{at}ms"), format!("handed out at +{}ms", self.now))),
+                                        Due::Timeout(at) => out.push(breach("C06", "retransmit-extra", "more retransmissions than configured (or a retransmission over TCP)", format!("{} retransmissions, then timeout at +{at}ms", x.retransmits), format!("transmission #{}", x.n_tx + 1))),
+                                    }
+                                }
+                                let e = self.live.get_mut(&id).unwrap();
+                                e.n_tx += 1;
+                                e.last_tx = self.now;
+                            }
+                        }
+                        self.pending_wait = None;
+                    }
+                    Obs::PollTimedOut(t) => {
+                        match id_of_tid(*t).filter(|i| self.live.contains_key(i)) {
+                            None => out.push(breach("C05", "timeout-not-outstanding", "a timeout was reported for a transaction that is not outstanding", "outstanding id".into(), format!("{t:#x}"))),
+                            Some(id) => {
+                                let x = self.live.get(&id).unwrap().clone();
+                                if x.strict() {
+                                    match x.next(tcp) {
+                                        Due::Timeout(at) if at <= self.now => {}
+                                        Due::Timeout(at) => out.push(breach("C06", "timeout-early", "the transaction timed out before last_retransmit_timeout after the final transmission", format!("timeout at +{at}ms"), format!("at +{}ms", self.now))),
+                                        Due::Retransmit(at) => out.push(breach("C06", "timeout-skips-retransmissions", "the transaction timed out although retransmissions remain", format!("retransmission #{} at +{at}ms", x.n_tx), format!("timeout at +{}ms", self.now))),
+                                    }
+                                }
+                                self.complete(id, 2);
+                            }
+                        }
+                        self.pending_wait = None;
+                    }
+                    Obs::PollCancelled(t) => {
+                        match id_of_tid(*t).filter(|i| self.live.contains_key(i)) {
+                            None => out.push(breach("C05", "cancel-not-outstanding", "a cancellation was reported for a transaction that is not outstanding", "outstanding id".into(), format!("{t:#x}"))),
+                            Some(id) => {
+                                let x = self.live.get(&id).unwrap().clone();
+                                if !x.stop_tx && !x.cancelled {
+                                    out.push(breach("C05", "cancelled-without-cancel", "a transaction was reported cancelled although neither cancel() nor cancel_retransmissions() was called", "no cancellation".into(), format!("TransactionCancelled(id {id})")));
+                                }
+                                self.complete(id, 3);
+                            }
+                        }
+                        self.pending_wait = None;
+                    }
+                    Obs::PollWait(ns) => {
+                        if !self.live.is_empty() {
+                            // nothing whose timing is pinned may be due
+                            for (id, x) in &self.live {
+                                if x.strict() && x.next_time(tcp) <= self.now {
+                                    out.push(breach("C06", "wait-while-due", "poll answered WaitUntil although a transaction needed service", format!("event for id {id} due at +{}ms", x.next_time(tcp)), format!("WaitUntil(+{ns}ns) at +{}ms", self.now)));
+                                    break;
+                                }
+                            }
+                            let all_strict = self.live.values().all(|x| x.strict());
+                            let want = self.min_next_strict();
+                            if ns % 1_000_000 != 0 {
+                                out.push(breach("C06", "wait-not-ms", "WaitUntil is not on the millisecond lattice of the configured schedule", "whole milliseconds".into(), format!("+{ns}ns")));
+                            }
+                            let t_ms = (*ns / 1_000_000) as i64;
+                            if all_strict {
+                                if Some(t_ms) != want {
+                                    out.push(breach("C06", "wait-not-earliest", "WaitUntil(t) is not the earliest instant at which an outstanding transaction needs service", format!("+{}ms", want.unwrap()), format!("+{t_ms}ms")));
+                                }
+                            } else {
+                                if let Some(w) = want {
+                                    if t_ms > w {
+                                        out.push(breach("C06", "wait-later-than-strict", "WaitUntil(t) is later than the next service instant of a transaction without cancel flag", format!("<= +{w}ms"), format!("+{t_ms}ms")));
+                                    }
+                                }
+                                if t_ms <= self.now {
+                                    out.push(breach("C06", "wait-not-in-future", "WaitUntil(t) with t not after now (polling at t must yield an event)", format!("> +{}ms", self.now), format!("+{t_ms}ms")));
+                                }
+                            }
+                            self.pending_wait = Some(t_ms);
+                        } else {
+                            self.pending_wait = None; // idle: unconstrained
+                        }
+                    }
+                    other => out.push(breach("C05", "poll-shape", "poll returned something unexpected", "poll result".into(), format!("{other:?}"))),
+                }
+            }
+            (Act::Tick { .. }, _) => {}
+            (Act::Resp { id, auth, from, .. }, o) => {
+                let delivered = matches!(o, Obs::Response);
+                if !matches!(o, Obs::Response | Obs::Drop) {
+                    out.push(breach("C05", "response-shape", "a response was neither delivered nor dropped", "StunResponse or Drop".into(), format!("{o:?}")));
+                }
+                match self.live.get(id).cloned() {
+                    None => {
+                        if delivered {
+                            let clause = if self.completed.contains_key(id) { "response-after-completion-delivered" } else { "response-unknown-id-delivered" };
+                            out.push(breach("C05", clause, "a response was delivered for a transaction that is not outstanding", "Drop".into(), "StunResponse".into()));
+                        }
+                    }
+                    Some(x) => {
+                        // reference verdict on the response's integrity under the remote key
+                        let must: Option<bool> = if x.cancelled {
+                            None // statement silent once cancel() was called and the request not yet reaped
+                        } else if x.sealed {
+                            match (self.remote_key, auth) {
+                                (None, _) => Some(false),
+                                (Some(_), Auth::None) => Some(false),
+                                (Some(rk), Auth::Sha1(k)) | (Some(rk), Auth::Sha256(k)) | (Some(rk), Auth::Both(k)) => Some(rk == *k),
+                                (Some(_), Auth::Sha1Flipped(_)) => Some(false),
+                            }
+                        } else {
+                            match auth {
+                                Auth::None => Some(true),
+                                _ => None, // integrity on a response to an unauthenticated request: statement silent
+                            }
+                        };
+                        match (must, delivered) {
+                            (Some(true), false) => {
+                                let p = if x.sealed { "C07" } else { "C07" };
+                                let clause = if x.sealed { "genuine-response-dropped" } else { "unauthenticated-response-dropped" };
+                                out.push(breach(p, clause, "a response that must be delivered was dropped", "StunResponse".into(), "Drop".into()));
+                            }
+                            (Some(false), true) => out.push(breach("C07", "forged-response-delivered", "a response without valid integrity under the remote credentials was delivered for an authenticated request", "Drop".into(), format!("StunResponse (auth {auth:?}, remote key {:?})", self.remote_key))),
+                            _ => {}
+                        }
+                        if delivered {
+                            self.complete(*id, 1);
+                            self.validated.insert(*from);
+                            self.pending_wait = None;
+                        }
+                        // dropped: transaction stays outstanding with its timing unchanged —
+                        // pending_wait stays armed, observers below, all futures explored
+                    }
+                }
+            }
+            (Act::Incoming { from, .. }, o) => {
+                if !matches!(o, Obs::IncomingStun) {
+                    out.push(breach("C05", "incoming-not-returned", "a request/indication was not handed back as incoming", "IncomingStun".into(), format!("{o:?}")));
+                }
+                self.validated.insert(*from);
+            }
+            (Act::Cancel { id }, o) => match (self.live.get_mut(id), o) {
+                (Some(x), Obs::Done) => {
+                    x.cancelled = true;
+                    x.stop_tx = true;
+                    self.pending_wait = None;
+                }
+                (None, Obs::NoSuchRequest) => {}
+                (_, o) => out.push(breach("C05", "handle-liveness", "mut_request_transaction disagrees with the set of outstanding transactions", "handle iff outstanding".into(), format!("{o:?}"))),
+            },
+            (Act::CancelRtx { id }, o) => match (self.live.get_mut(id), o) {
+                (Some(x), Obs::Done) => {
+                    x.stop_tx = true;
+                    self.pending_wait = None;
+                }
+                (None, Obs::NoSuchRequest) => {}
+                (_, o) => out.push(breach("C05", "handle-liveness", "mut_request_transaction disagrees with the set of outstanding transactions", "handle iff outstanding".into(), format!("{o:?}"))),
+            },
+            (Act::Configure { id, cfg }, o) => match (self.live.get_mut(id), o) {
+                (Some(x), Obs::Done) => {
+                    let (rto, n, last) = cfg_of(*cfg);
+                    x.rto = rto;
+                    x.retransmits = n;
+                    x.last = last;
+                    self.pending_wait = None;
+                }
+                (None, Obs::NoSuchRequest) => {}
+                (_, o) => out.push(breach("C05", "handle-liveness", "mut_request_transaction disagrees with the set of outstanding transactions", "handle iff outstanding".into(), format!("{o:?}"))),
+            },
+            (Act::SetRemote { key }, _) => self.remote_key = Some(*key),
+        }
+        // observers after every step
+        for i in 0..N_IDS as u8 {
+            let want = self.live.contains_key(&i);
+            if post.live[i as usize] != want {
+                out.push(breach("C05", "outstanding-set", "request_transaction(id).is_some() disagrees with the set of outstanding transactions", format!("id {i}: {want}"), format!("id {i}: {}", post.live[i as usize])));
+            }
+            if let (Some(x), Some(p)) = (self.live.get(&i), post.peer[i as usize]) {
+                if p != peer(x.to) {
+                    out.push(breach("C18", "peer-address", "peer_address() of an outstanding request is not the destination given at send", format!("{}", peer(x.to)), format!("{p}")));
+                }
+            }
+        }
+        for a in 0..N_ADDRS as u8 {
+            let want = self.validated.contains(&a);
+            if post.validated[a as usize] != want {
+                let clause = if post.validated[a as usize] { "validated-without-accepted-message" } else { "validation-lost-or-missing" };
+                out.push(breach("C15", clause, "is_validated_peer disagrees with the set of peers a STUN message was accepted from", format!("{}: {want}", peer(a)), format!("{}: {}", peer(a), post.validated[a as usize])));
+            }
+        }
+        if post.remote_creds_set != self.remote_key.is_some() {
+            out.push(breach("C07", "remote-credentials-getter", "remote_credentials() disagrees with what was set", format!("{}", self.remote_key.is_some()), format!("{}", post.remote_creds_set)));
+        }
+        if !out.is_empty() {
+            self.diverged = true;
+        }
+        out
+    }
+}
+
+/// sanity traces: the schedules the repository's own unit tests describe
+pub fn selftest() -> Vec<String> {
+    let mut f = Vec::new();
+    let mk = |rto, n, last| Tx { to: 0, sealed: false, wire: std::sync::Arc::new(vec![0; 20]), n_tx: 1, last_tx: 0, rto, retransmits: n, last, stop_tx: false, cancelled: false };
+    // default UDP: transmissions at 0, .5, 1.5, 3.5, 7.5, 15.5, 31.5 s, timeout at 39.5 s
+    let mut x = mk(500, 6, 8000);
+    let mut times = vec![0i64];
+    loop {
+        match x.next(false) {
+            Due::Retransmit(t) => {
+                times.push(t);
+                x.n_tx += 1;
+                x.last_tx = t;
+            }
+            Due::Timeout(t) => {
+                times.push(t);
+                break;
+            }
+        }
+    }
+    if times != vec![0, 500, 1500, 3500, 7500, 15500, 31500, 39500] {
+        f.push(format!("spec default schedule {times:?}"));
+    }
+    if mk(500, 6, 8000).next(true) != Due::Timeout(39500) {
+        f.push("spec default TCP timeout".into());
+    }
+    // request_custom_timeout of the repository: (1 s, 2, 10 s): 0, 1, 3 s, timeout 13 s
+    let mut x = mk(1000, 2, 10_000);
+    let mut times = vec![0i64];
+    loop {
+        match x.next(false) {
+            Due::Retransmit(t) => {
+                times.push(t);
+                x.n_tx += 1;
+                x.last_tx = t;
+            }
+            Due::Timeout(t) => {
+                times.push(t);
+                break;
+            }
+        }
+    }
+    if times != vec![0, 1000, 3000, 13000] {
+        f.push(format!("spec custom schedule {times:?}"));
+    }
+    if mk(1000, 2, 10_000).next(true) != Due::Timeout(13_000) {
+        f.push("spec custom TCP timeout".into());
+    }
+    f.extend(crate::engine_sm::snapshot::selftest());
+    f
+}
